@@ -372,6 +372,42 @@ def run(tier, rep):
             rep.violation(f"ill-typed-accepted:unsatisfied-trait-bound:{q['id']}", detail, replay={"source": q["text"]})
         else:
             rep.violation(f"ill-typed-not-rejected-by-typer:{r['verdict']}:unsatisfied-trait-bound:{q['id']}", detail, replay={"source": q["text"]})
+    # ---- a wrongly typed (or missing / extra) argument in every call form of a method: inherent, trait on a concrete receiver,
+    # through a bound, through dyn
+    chead = ("trait Shape { fn scale(Self, int32) -> int32; }\nstruct Sq { s: int32 }\nimpl Shape for Sq { fn scale(self: Sq, k: int32) -> int32 { self.s * k } }\n"
+             "impl Sq { fn grow(self: Sq, k: int32) -> int32 { self.s + k } }\n")
+    forms = {
+        "dyn-ufcs": ("", "let d: dyn Shape = Sq { s: 1 };\n    let r = Shape::scale(d, {A});"),
+        "concrete-ufcs": ("", "let r = Shape::scale(Sq { s: 1 }, {A});"),
+        "bound-ufcs": ("fn gen[T: Shape](x: T) -> int32 { Shape::scale(x, {A}) }\n", "let r = gen(Sq { s: 1 });"),
+        "bound-method": ("fn gen[T: Shape](x: T) -> int32 { x.scale({A}) }\n", "let r = gen(Sq { s: 1 });"),
+        "inherent-method": ("", "let q = Sq { s: 1 };\n    let r = q.grow({A});"),
+        "inherent-ufcs": ("", "let r = Sq::grow(Sq { s: 1 }, {A});"),
+        "dyn-in-function": ("fn via(d: dyn Shape) -> int32 { Shape::scale(d, {A}) }\n", "let r = via(Sq { s: 1 });"),
+    }
+    wrong = {"string-for-int32": '"two"', "bool-for-int32": "true", "tuple-for-int32": "(1, 2)", "missing-argument": None, "extra-argument": "1, 2"}
+    creqs = []
+    for fname, (decl, stmt) in forms.items():
+        for wname, w in [("control", "2")] + list(wrong.items()):
+            if w is None:
+                d2, s2 = decl.replace(", {A}", "").replace("({A})", "()"), stmt.replace(", {A}", "").replace("({A})", "()")
+            else:
+                d2, s2 = decl.replace("{A}", w), stmt.replace("{A}", w)
+            text = chead + d2 + "fn main() -> unit {\n    " + s2 + "\n    let _ = string_println(int32_to_string(r));\n    ()\n}\n"
+            creqs.append({"id": f"{fname}:{wname}", "text": text, "dir": mroot})
+    for q, r in zip(creqs, gv_parallel("compile", creqs, extra=["--limit-ms", "30000"])):
+        if q["id"].endswith(":control"):
+            if r["verdict"] != "ok":
+                raise ToolError(f"call-form control program {q['id']} rejected: {[d['msg'] for d in r.get('diags', [])][:2]}")
+            continue
+        mverd[r["verdict"]] += 1
+        if r["verdict"] == "typer":
+            continue
+        detail = {"mutation": "wrong-argument-in-call-form", "verdict": r["verdict"], "diagnostics": [d["msg"] for d in r.get("diags", [])][:4], "panic": r.get("msg"), "source": q["text"]}
+        if r["verdict"] == "ok":
+            rep.violation(f"ill-typed-accepted:call-form:{q['id']}", detail, replay={"source": q["text"]})
+        else:
+            rep.violation(f"ill-typed-not-rejected-by-typer:{r['verdict']}:call-form:{q['id']}", detail, replay={"source": q["text"]})
     if acc:
         aerr, _ = judge(acc[:50], "c03-accepted-mutants")
         rep.coverage["accepted_mutants_also_flagged_by_judgment"] = sum(1 for i, _ in acc[:50] if aerr.get(i))
